@@ -107,7 +107,7 @@ TAILS = [I("3"), I("-3"), FE("-1e16"), Id("three"), P("..."), P("-"), P("<="), S
          L(P("..."), tail=P("...")), V(I("1")), V(), ("nil",), C("a")]
 
 # neighbours for the adjacency sweep: every atom next to each of these, in both orders
-PROBES = [P("-"), P(":"), P("..."), I("1"), F("2.5"), Id("foo"), FE("1e3"), S("s"), P("+"), C("c"), U("n")]
+PROBES = [P("-"), P(":"), P("..."), I("1"), Id("foo"), F("2.5"), FE("1e3"), S("s"), P("+"), C("c"), U("n")]
 
 # composites nested inside other composites
 COMPOSITES = [L(), L(I("1")), L(P("+"), I("1"), I("2")), L(I("1"), tail=I("2")), L(Id("a"), tail=L(Id("b"), tail=L())),
